@@ -293,33 +293,78 @@ pub fn run(cfg: &RunCfg) -> Report {
 				let rw: Vec<bool> = ids.iter().map(|id| is_rw(&w, *id)).collect();
 				let mut n_ops = 0u64;
 				let mut cases = Vec::new();
-				// (A) held by another thread (phantoms), every assignment
-				for asg in assignments(&rw) {
-					place(&w, &ids, &asg, false);
-					tc.with_lk(target, |tc, lk, _| {
-						let _ = tc.nonacq("debug(target)", || lk.debug());
-						let _ = tc.nonacq("accessors(target)", || lk.accessors());
-					});
-					// the same while the calling thread's key is NOT alive (a formatter that
-					// finds a free key must still not use it to wait for the lock)
-					let k = tc.key.take();
-					drop(k);
-					tc.with_lk(target, |tc, lk, _| {
-						let _ = tc.nonacq("debug(target) with no live key", || lk.debug());
-						let _ = tc.nonacq("accessors(target) with no live key", || lk.accessors());
-					});
-					match ThreadKey::get() {
-						Some(k) => tc.key = Some(k),
-						None => tc.v("C17", "key_taken_by_nonacquiring_call", format!("after formatting {} the thread's key is gone", target_desc(target))),
+				// Poisonable leaves are exercised in both states: the second pass poisons every wrapper
+				// (a panic inside its own guard) before each group of operations
+				let pois_leaves: Vec<usize> = (0..tc.arena.leaves.len())
+					.filter(|li| matches!(tc.arena.leaves[*li], Leaf::PM(_) | Leaf::PR(_)))
+					.collect();
+				let poison_all = |tc: &mut Tc<'_>| {
+					for li in &pois_leaves {
+						let acq = Acq {
+							target: Target::Leaf(*li),
+							mode: Mode::Excl,
+							api: Api::Guard,
+							lent: false,
+							panic: true,
+							unwind: false,
+						};
+						let _ = guarded(|| tc.run_acq(&acq));
+						tc.key = None;
+						let p = match &tc.arena.leaves[*li] {
+							Leaf::PM(p) => p.is_poisoned(),
+							Leaf::PR(p) => p.is_poisoned(),
+							_ => true,
+						};
+						if !p {
+							tc.v("C10", "not_poisoned_after_panic", format!("route=leaf.lock|L{li} not poisoned after a panic under its own guard"));
+						}
 					}
-					n_ops += 4;
-					cases.push((format!("other:{}", asg_str(&asg)), asg.iter().any(|h| *h != Hold::Free)));
+				};
+				// (A) held by another thread (phantoms), every assignment
+				for poisoned in [false, true] {
+					if poisoned && pois_leaves.is_empty() {
+						continue;
+					}
+					for asg in assignments(&rw) {
+						if poisoned {
+							w.phantom_release_all();
+							poison_all(tc);
+						}
+						place(&w, &ids, &asg, false);
+						tc.with_lk(target, |tc, lk, _| {
+							let _ = tc.nonacq(if poisoned { "debug(target), poisoned" } else { "debug(target)" }, || lk.debug());
+							if !poisoned {
+								// (clear_poison is one of the accessors: in the poisoned pass they run last)
+								let _ = tc.nonacq("accessors(target)", || lk.accessors());
+							}
+						});
+						// the same while the calling thread's key is NOT alive (a formatter that
+						// finds a free key must still not use it to wait for the lock)
+						let k = tc.key.take();
+						drop(k);
+						tc.with_lk(target, |tc, lk, _| {
+							let _ = tc.nonacq(if poisoned { "debug(target) with no live key, poisoned" } else { "debug(target) with no live key" }, || lk.debug());
+							let _ = tc.nonacq("accessors(target) with no live key", || lk.accessors());
+						});
+						match ThreadKey::get() {
+							Some(k) => tc.key = Some(k),
+							None => tc.v("C17", "key_taken_by_nonacquiring_call", format!("after formatting {} the thread's key is gone", target_desc(target))),
+						}
+						n_ops += 4;
+						cases.push((format!("other:{}{}", asg_str(&asg), if poisoned { ":poisoned" } else { "" }), poisoned || asg.iter().any(|h| *h != Hold::Free)));
+					}
 				}
 				w.phantom_release_all();
 				// (B) held by the calling thread: live guard, and inside a scoped closure
-				for mode in [Mode::Excl, Mode::Shared] {
+				for (mode, poisoned) in [(Mode::Excl, false), (Mode::Shared, false), (Mode::Excl, true), (Mode::Shared, true)] {
 					if mode == Mode::Shared && !readable {
 						continue;
+					}
+					if poisoned {
+						if pois_leaves.is_empty() {
+							continue;
+						}
+						poison_all(tc);
 					}
 					let key = tc.key.take().or_else(ThreadKey::get);
 					let Some(key) = key else {
@@ -330,9 +375,11 @@ pub fn run(cfg: &RunCfg) -> Report {
 						w.begin_call(0, Class::Acquire, "c17.lock", false);
 						let held = lk.lock(key, mode);
 						w.end_call(0);
-						let _ = tc.nonacq("debug(target) under own guard", || lk.debug());
-						let _ = tc.nonacq("debug(guard)", || held.debug());
-						let _ = tc.nonacq("accessors(target) under own guard", || lk.accessors());
+						let _ = tc.nonacq(if poisoned { "debug(target) under own guard, poisoned" } else { "debug(target) under own guard" }, || lk.debug());
+						let _ = tc.nonacq(if poisoned { "debug(guard), poisoned" } else { "debug(guard)" }, || held.debug());
+						if !poisoned {
+							let _ = tc.nonacq("accessors(target) under own guard", || lk.accessors());
+						}
 						w.begin_call(0, Class::Release, "c17.unlock", false);
 						let mut key = held.unlock();
 						w.end_call(0);
@@ -340,7 +387,7 @@ pub fn run(cfg: &RunCfg) -> Report {
 						let cell = std::cell::RefCell::new(&mut *tc);
 						let body = |_f: Flat<'_>, _p: Option<bool>| {
 							let mut tc = cell.borrow_mut();
-							let _ = tc.nonacq("debug(target) inside scoped closure", || lk.debug());
+							let _ = tc.nonacq(if poisoned { "debug(target) inside scoped closure, poisoned" } else { "debug(target) inside scoped closure" }, || lk.debug());
 							let _ = tc.nonacq("accessors(target) inside scoped closure", || lk.accessors());
 						};
 						w.begin_call(0, Class::Acquire, "c17.scoped", false);
@@ -353,7 +400,7 @@ pub fn run(cfg: &RunCfg) -> Report {
 						None => break,
 					}
 					n_ops += 5;
-					cases.push((format!("self:{:?}", mode), true));
+					cases.push((format!("self:{:?}{}", mode, if poisoned { ":poisoned" } else { "" }), true));
 				}
 				(n_ops, cases)
 			});
@@ -410,6 +457,6 @@ pub fn run(cfg: &RunCfg) -> Report {
 			}
 		}
 	});
-	rep.rule = format!("(a) every shape of sizes 0..{max_n} (as in C13) x every assignment of {{free, read-held, write-held by a phantom}} x both wake policies: Debug of the target + all &self accessors (child, iter, into_iter(&), as_ref, is_poisoned, clear_poison); (b) the same operations plus Debug of the guard while the calling thread itself holds the shape through a live guard and from inside a running scoped closure, read and write; (c) {owned_variants} variants of ownership-requiring operations (new/new_ref/from/from_iter/default/extend, get_mut, child_mut, iter_mut, into_child, into_inner of Mutex, RwLock, Poisonable and owned/boxed/ref/retrying collections of sizes 0..4) on locks that are free, phantom-held, or held through a guard leaked with mem::forget; monitor: no blocking raw op inside the call and owner table equal before/after; non-trivial = some lock held during the call");
+	rep.rule = format!("(a) every shape of sizes 0..{max_n} (as in C13) x every assignment of {{free, read-held, write-held by a phantom}} x both wake policies: Debug of the target + all &self accessors (child, iter, into_iter(&), as_ref, is_poisoned, clear_poison); (b) the same operations plus Debug of the guard while the calling thread itself holds the shape through a live guard and from inside a running scoped closure, read and write; (c) {owned_variants} variants of ownership-requiring operations (new/new_ref/from/from_iter/default/extend, get_mut, child_mut, iter_mut, into_child, into_inner of Mutex, RwLock, Poisonable and owned/boxed/ref/retrying collections of sizes 0..4) on locks that are free, phantom-held, or held through a guard leaked with mem::forget; every Debug / accessor case over shapes with Poisonable leaves is repeated with all those wrappers POISONED (re-poisoned before each group, since clear_poison is one of the operations); monitor: no blocking raw op inside the call and owner table equal before/after; non-trivial = some lock held during the call");
 	rep
 }
